@@ -295,6 +295,13 @@ func (r *Run) writeEvidence(counts map[string]int, discharged, nontrivial int, f
 		"violations":  len(failed),
 	}
 	b, _ := json.MarshalIndent(ev, "", " ")
+	// the matrix tools analyse deliberately modified trees: their runs must not replace
+	// the evidence of the registered checks
+	if dir := os.Getenv("VERIF_EVIDENCE_DIR"); dir != "" {
+		_ = os.MkdirAll(dir, 0o755)
+		_ = os.WriteFile(filepath.Join(dir, r.Prop+".json"), b, 0o644)
+		return
+	}
 	_ = os.MkdirAll(filepath.Join(VerifRoot, "evidence"), 0o755)
 	if err := os.WriteFile(filepath.Join(VerifRoot, "evidence", r.Prop+".json"), b, 0o644); err != nil {
 		fmt.Fprintf(os.Stderr, "UNDECIDED property=%s cannot write evidence: %v\n", r.Prop, err)
